@@ -36,11 +36,12 @@ def placements(T):
         (("before", 1), ("gp", 0)),       # touching the start (no step)
         (("gp", T), ("after", 1)),        # touching the end (no step)
         (("mid", 1), ("gp", 2)),          # shorter than a step, contains no grid point
-    ]
+    ] + ([(("gp", 3), ("gp", T)),         # from / up to the fourth grid point (on the hourly grid across the autumn clock change: the second 02:00)
+          (("gp", 0), ("gp", 3))] if T >= 5 else [])
 
 
 def gen(ch):
-    gname = ch.pick("grid", ["4x6h", "5xh", "3xd_spring", "12h_partial", "4x6h_d", "4x6h_cet"])
+    gname = ch.pick("grid", ["4x6h", "5xh", "3xd_spring", "12h_partial", "4x6h_d", "4x6h_cet", "7xh_autumn"])
     gj = dict(S.GRIDS[gname])
     g = Grid.from_json(gj)
     T = g.T
